@@ -31,44 +31,46 @@ Proof. reflexivity. Qed.
 Lemma get_push l i s j : get j (push l i s) = get j s.
 Proof. unfold push; destruct l; reflexivity. Qed.
 
-Lemma get_pop l s i s' j : pop l s = Some (i, s') -> get j s' = get j s.
+(* queues: the LocalSet's local queue, or the scheduler's two queues taken together *)
+Definition qlen (loc : bool) (s : st) : nat := if loc then length (lq s) else length (cq s) + length (inj s).
+Definition qin (loc : bool) (i : nat) (s : st) : Prop := if loc then In i (lq s) else In i (cq s) \/ In i (inj s).
+
+Lemma qlen_upd_task l i f s : qlen l (upd_task i f s) = qlen l s.
+Proof. destruct l; reflexivity. Qed.
+Lemma qlen_add_trace l r s : qlen l (add_trace r s) = qlen l s.
+Proof. destruct l; reflexivity. Qed.
+Lemma qlen_push l k i s : qlen l (push k i s) = if Bool.eqb l k then S (qlen l s) else qlen l s.
+Proof. destruct l, k; unfold push, qlen; cbn [lq cq inj set_lq set_cq Bool.eqb]; rewrite ?app_length; cbn [length]; lia. Qed.
+
+Lemma pop_none l s : pop l s = None <-> qlen l s = 0.
 Proof.
-  unfold pop; destruct l.
-  - destruct (lq s); [discriminate|]. intros H; inversion H; reflexivity.
-  - destruct (cq s); [discriminate|]. intros H; inversion H; reflexivity.
+  unfold pop, qlen; destruct l.
+  - destruct (lq s); split; intros H; try reflexivity; discriminate.
+  - destruct (next_tick s mod gqi s =? 0)%N; destruct (cq s), (inj s); cbn [length]; split; intros H;
+      try reflexivity; try discriminate.
 Qed.
 
-(* queues *)
-Definition qof (loc : bool) (s : st) : list nat := if loc then lq s else cq s.
-
-Lemma qof_upd_task l i f s : qof l (upd_task i f s) = qof l s.
-Proof. destruct l; reflexivity. Qed.
-Lemma qof_add_trace l r s : qof l (add_trace r s) = qof l s.
-Proof. destruct l; reflexivity. Qed.
-Lemma qof_push l k i s : qof l (push k i s) = if Bool.eqb l k then qof l s ++ [i] else qof l s.
-Proof. destruct l, k; reflexivity. Qed.
-Lemma pop_spec l s : pop l s = match qof l s with
-                               | [] => None
-                               | i :: r => match pop l s with Some (_, s') => Some (i, s') | None => None end
-                               end.
-Proof. unfold pop, qof; destruct l; [destruct (lq s)|destruct (cq s)]; reflexivity. Qed.
-Lemma pop_none l s : pop l s = None <-> qof l s = [].
-Proof.
-  unfold pop, qof; destruct l; [destruct (lq s)|destruct (cq s)]; split; intros H; try reflexivity; discriminate.
-Qed.
 Lemma pop_some l s i s' : pop l s = Some (i, s') ->
-  qof l s = i :: qof l s' /\ qof (negb l) s' = qof (negb l) s /\ tasks s' = tasks s /\ trace s' = trace s.
+  qlen l s = S (qlen l s') /\ qin l i s /\ (forall j, qin l j s' -> qin l j s) /\
+  qlen (negb l) s' = qlen (negb l) s /\ (l = false -> lq s' = lq s) /\
+  tasks s' = tasks s /\ trace s' = trace s /\ gqi s' = gqi s.
 Proof.
-  unfold pop, qof; destruct l; cbn [negb].
-  - destruct (lq s); [discriminate|]. intros H; inversion H; subst; cbn; auto.
-  - destruct (cq s); [discriminate|]. intros H; inversion H; subst; cbn; auto.
+  unfold pop, qlen, qin; destruct l; cbn [negb].
+  - destruct (lq s) as [|x q] eqn:E; [discriminate|]. intros H; inversion H; subst; cbn.
+    repeat split; auto. discriminate.
+  - destruct (next_tick s mod gqi s =? 0)%N; destruct (cq s) as [|x q] eqn:Ec, (inj s) as [|y r] eqn:Ei;
+      try discriminate; intros H; inversion H; subst; cbn; rewrite ?Ec, ?Ei; cbn;
+      repeat split; auto; try lia; intros j Hj; tauto.
 Qed.
+
+Lemma get_pop l s i s' j : pop l s = Some (i, s') -> get j s' = get j s.
+Proof. intros H. apply pop_some in H. unfold get. destruct H as [_ [_ [_ [_ [_ [H _]]]]]]. rewrite H. reflexivity. Qed.
 
 (* the measure *)
 Definition tw (ts : list task) : nat := fold_right (fun t a => weight t + a) 0 ts.
 Definition cw (c : list op) : nat := fold_right (fun o a => opw o + a) 0 c.
 
-Lemma measure_eq s : measure s = tw (tasks s) + length (lq s) + length (cq s).
+Lemma measure_eq s : measure s = tw (tasks s) + length (lq s) + length (cq s) + length (inj s).
 Proof. reflexivity. Qed.
 
 Lemma weight_some t c : code t = Some c -> weight t = 2 + cw c.
@@ -92,7 +94,7 @@ Qed.
 Lemma measure_upd_task i f s t : get i s = Some t ->
   measure (upd_task i f s) + weight t = measure s + weight (f t).
 Proof.
-  intros H. rewrite !measure_eq. unfold upd_task; cbn [tasks lq cq].
+  intros H. rewrite !measure_eq. unfold upd_task; cbn [tasks lq cq inj].
   pose proof (tw_upd f _ _ _ H). lia.
 Qed.
 
@@ -114,17 +116,16 @@ Lemma measure_add_trace r s : measure (add_trace r s) = measure s.
 Proof. reflexivity. Qed.
 
 Lemma measure_push l i s : measure (push l i s) = S (measure s).
-Proof. rewrite !measure_eq. unfold push; destruct l; cbn [tasks lq cq]; rewrite app_length; cbn [length]; lia. Qed.
+Proof. rewrite !measure_eq. unfold push; destruct l; cbn [tasks lq cq inj set_lq set_cq]; rewrite app_length; cbn [length]; lia. Qed.
 
 Lemma measure_pop l s i s' : pop l s = Some (i, s') -> measure s = S (measure s').
 Proof.
-  intros H. rewrite !measure_eq. unfold pop in H; destruct l.
-  - destruct (lq s) eqn:E; [discriminate|]. inversion H; subst; cbn [tasks lq cq length]. lia.
-  - destruct (cq s) eqn:E; [discriminate|]. inversion H; subst; cbn [tasks lq cq length]. lia.
+  intros H. apply pop_some in H. destruct H as [H1 [_ [_ [H2 [_ [H3 _]]]]]].
+  rewrite !measure_eq, H3. unfold qlen in *. destruct l; cbn [negb] in *; lia.
 Qed.
 
-Lemma measure_queue l s : length (qof l s) <= measure s.
-Proof. rewrite measure_eq. destruct l; cbn [qof]; lia. Qed.
+Lemma measure_queue l s : qlen l s <= measure s.
+Proof. rewrite measure_eq. destruct l; cbn [qlen]; lia. Qed.
 
 (* code_of through the primitives *)
 Lemma code_of_upd_keep i f s j : (forall t, code (f t) = code t) -> code_of j (upd_task i f s) = code_of j s.
